@@ -21,6 +21,11 @@ def run(ctx):
     html_model(ctx, "R5")
     from . import common_quote as Q
     Q.rule_space(ctx, "R7")
+    # canonicalize=True hands every link to canonicalize_url: unique=True and the base-url test compare its results
+    Q.rule_qsl_mappers(ctx, "R7m")
+    from .c02 import mode_table, order_rule
+    order_rule(ctx, "R8")
+    mode_table(ctx, "R9")
     links_model(ctx, "R6")
 
 
